@@ -206,7 +206,7 @@ def fixed_ints(vm):
 def sym_setup(vm, job):
     from symvm.ideal import IdealFn
     import lbry.wallet.transaction as T
-    h = IdealFn(vm, 'sha256', 32, injective=True)
+    h = IdealFn(vm, 'sha256', 32, injective=True, bv=False)     # Int bytes: the id goes through hexlify().decode()
     vm.models[id(sha256)] = h.model()
     vm.models[id(T.sha256)] = h.model()
 
